@@ -74,7 +74,7 @@ REAL = ['asyncssh connection/kex/kex_dh/kex_rsa/public_key code of both '
 STUB = ['event loop + clock', 'TCP', 'executor', 'OS randomness',
         'on-path handshake editor (independent cleartext codec)']
 PROBES = ['edit_applied', 'edit_flip', 'edit_version', 'edit_list',
-          'edit_follows', 'edit_hostkey', 'edit_version_tail',
+          'edit_follows', 'edit_hostkey', 'edit_version_tail', 'edit_pad',
           'no_common_alg',
           'hostkey_alg_checked',
           'handshake_ok', 'downgrade_attempt_effective', 'kex_gex',
@@ -107,7 +107,8 @@ def gen_plan(rng):
     skeys = sub_perm(rng, HOSTKEYS)
     chk = sub_perm(rng, HK_ALGS)
     ek = rng.weighted([('none', 25), ('flip', 30), ('version', 8),
-                       ('list', 20), ('follows', 3), ('hostkey', 14)])
+                       ('list', 20), ('follows', 3), ('hostkey', 14),
+                       ('pad', 8)])
     edit = {'kind': ek}
 
     if ek == 'flip':
@@ -128,6 +129,14 @@ def gen_plan(rng):
                     arg=rng.below(1 << 16))
     elif ek == 'follows':
         edit.update(dir=rng.choice(['c2s', 's2c']))
+    elif ek == 'pad':
+        edit.update(dir=rng.choice(['c2s', 's2c']), field=rng.below(4),
+                    count=rng.choice([1, 1, 3]))
+
+        if rng.chance(60):
+            # where the fields are numbers: the finite-field exchanges
+            dh = [k for k in KEXES if k.startswith('diffie-hellman')]
+            ckex = skex = [rng.choice(dh)]
     elif ek == 'hostkey':
         edit.update(mode=rng.choice(['swap_trusted', 'swap_untrusted',
                                      'resign', 'sigflip', 'sigalg']),
@@ -177,8 +186,13 @@ def valid_plan(plan):
                               or not 0 <= o['delay'] <= 100):
             return False
 
+        if plan['edit']['kind'] == 'pad' and \
+                (not 1 <= plan['edit']['count'] <= 8 or
+                 plan['edit']['field'] < 0):
+            return False
+
         return plan['edit']['kind'] in ('none', 'flip', 'version', 'list',
-                                        'follows', 'hostkey')
+                                        'follows', 'hostkey', 'pad')
     except (KeyError, TypeError):
         return False
 
@@ -286,6 +300,24 @@ class EditWire(Observer):
             b[pos] ^= 1 << e['bit']
             new = bytes(b)
             self.detail = ('flip', dirname, n, ptype, pos)
+        elif kind == 'pad' and e['dir'] == dirname and 30 <= ptype <= 49:
+            # zero octets put in front of one string field of a key exchange
+            # message: the same number if the field is an mpint, other bytes
+            # on the wire all the same
+            r = Reader(payload, 1)
+            fields = []
+
+            try:
+                while r.p < len(payload):
+                    fields.append(r.string())
+            except Short:
+                fields = []
+
+            if fields and e['count'] > 0:
+                i = e['field'] % len(fields)
+                fields[i] = bytes(e['count']) + fields[i]
+                new = payload[:1] + b''.join(string(f) for f in fields)
+                self.detail = ('pad', dirname, ptype, i, e['count'])
         elif kind in ('list', 'follows') and e['dir'] == dirname and \
                 ptype == 20:
             k = dict(ds.kexinit)
